@@ -79,6 +79,8 @@ def classification : List (Site × Verdict) := [
   (("interpreter/value/json.go", "marshalValue", 0), .covered ``perm_invariant_rebuild ("any-object fields → map for encoding/json (which sorts keys); " ++ insertOnly)),
   (("interpreter/value/json.go", "marshalValue", 1), .covered ``perm_invariant_rebuild ("object fields → map for encoding/json; " ++ insertOnly)),
   (("interpreter/value/json.go", "unmarshalValue", 0), .covered ``perm_invariant_rebuild ("decoded JSON object → fields; the error return is unreachable for values produced by encoding/json; " ++ insertOnly)),
+  (("interpreter/value/valueAnyObject.go", "containsAnyObject", 0), .covered ``perm_invariant_any "is the any-object contained in some field (repair X29): an existence test"),
+  (("interpreter/value/valueAnyObject.go", "containsAnyObject", 1), .covered ``perm_invariant_any "is the any-object contained in some field (repair X29): an existence test"),
   (("interpreter/value/valueAnyObject.go", "ValueAnyObject.Display", 0), .covered ``perm_invariant_displayFields sortedFirst),
   (("interpreter/value/valueAnyObject.go", "ValueAnyObject.Fields", 0), .covered ``perm_invariant_sortByKey ("`keys`: " ++ sortedFirst)),
   (("interpreter/value/valueAnyObject.go", "ValueAnyObject.IsEqual", 0), .covered ``perm_invariant_fieldsEqual forall_),
@@ -94,6 +96,8 @@ def classification : List (Site × Verdict) := [
   (("runtime/value/json.go", "MarshalValue", 0), .covered ``perm_invariant_rebuild ("any-object fields → map for encoding/json (which sorts keys); " ++ insertOnly)),
   (("runtime/value/json.go", "MarshalValue", 1), .covered ``perm_invariant_rebuild ("object fields → map for encoding/json; " ++ insertOnly)),
   (("runtime/value/json.go", "UnmarshalValue", 0), .covered ``perm_invariant_rebuild ("decoded JSON object → fields; the error return is unreachable for values produced by encoding/json; " ++ insertOnly)),
+  (("runtime/value/valueAnyObject.go", "containsAnyObject", 0), .covered ``perm_invariant_any "is the any-object contained in some field (repair X29): an existence test"),
+  (("runtime/value/valueAnyObject.go", "containsAnyObject", 1), .covered ``perm_invariant_any "is the any-object contained in some field (repair X29): an existence test"),
   (("runtime/value/valueAnyObject.go", "ValueAnyObject.Clone", 0), .covered ``perm_invariant_rebuild ("field-wise clone; " ++ insertOnly)),
   (("runtime/value/valueAnyObject.go", "ValueAnyObject.Display", 0), .covered ``perm_invariant_displayFields sortedFirst),
   (("runtime/value/valueAnyObject.go", "ValueAnyObject.Fields", 0), .covered ``perm_invariant_sortByKey ("`keys`: " ++ sortedFirst)),
